@@ -73,10 +73,10 @@ type attPlan struct {
 }
 
 type callPlan struct {
-	Src      int       `json:"src"`
-	Dst      int       `json:"dst"`
-	Hole     int       `json:"black_hole,omitempty"`  // > 0: the call addresses black hole #Hole instead of node Dst
-	Unreach  bool      `json:"unreachable,omitempty"` // the call addresses a peer ID nobody knows an address of
+	Src     int  `json:"src"`
+	Dst     int  `json:"dst"`
+	Hole    int  `json:"black_hole,omitempty"`  // > 0: the call addresses black hole #Hole instead of node Dst
+	Unreach bool `json:"unreachable,omitempty"` // the call addresses a peer ID nobody knows an address of
 	// > 0: the call sends the byte-identical payload (and procedure) of every other call of the same group, and all
 	// calls of the group are fired together within one wall-clock second (twins_test.go)
 	Twin     int       `json:"identical_payload_group,omitempty"`
@@ -687,15 +687,16 @@ type verdict struct {
 	dupsSent int
 	unkOther int64
 	// stalled-peer class
-	stallCand    []string // suspects (need 3 of 3)
-	lockStreak   int
-	holeCalls    int
-	judged       int // pristine healthy calls judged (no process stall during the call)
-	judgeSkipped int // ... not judged because the heartbeat was late during the call
-	healthyBad   int
-	overlapHole  int // pristine healthy calls that overlapped an outstanding black-hole call on their node
-	otherErrs    []string
-	wall         time.Duration
+	stallCand      []string // suspects (need 3 of 3)
+	lockStreak     int
+	holeCalls      int
+	judged         int // pristine healthy calls judged (no process stall during the call)
+	judgeSkipped   int // ... not judged because the heartbeat was late during the call
+	healthyBad     int
+	healthyBadTwin int // ... of them identical-payload calls
+	overlapHole    int // pristine healthy calls that overlapped an outstanding black-hole call on their node
+	otherErrs      []string
+	wall           time.Duration
 	// blocked layer (mutex waits, requester parked beyond its timeout) and late-response-storm class
 	blocked   bool
 	lateN     int // replies that took the unknown-ID branch after timeout/cancellation of their attempt
@@ -1021,7 +1022,13 @@ func (cs *caseState) await(allDone <-chan struct{}, v *verdict, t0 time.Time) (f
 			return false
 		}
 		if time.Since(t0) > hardCap {
-			v.incon = append(v.incon, fmt.Sprintf("case %d: %d calls outstanding after %v without a goroutine parked in onResponse (budget, not a verdict)", cs.no, cs.inCalls.Load(), hardCap))
+			v.incon = append(v.incon, fmt.Sprintf("case %d: %d calls outstanding after %v without a goroutine parked in onResponse (budget, not a verdict); idle %v, %d heartbeats since the last event; callers: %s",
+				cs.no, cs.inCalls.Load(), hardCap, idle.Round(time.Millisecond), beats, cs.callerFrames(2, 8)))
+			if os.Getenv("VERIF_C17_TRACE") != "" {
+				for _, g := range dumpGoroutines() {
+					fmt.Fprintf(os.Stderr, "%s\n\n", g.Stack)
+				}
+			}
 			cs.cl.wedged = true // do not reuse, but nothing is claimed
 			return false
 		}
@@ -1300,7 +1307,7 @@ func drawAttempt(t *rapid.T, tUs int, first bool, label string) attPlan {
 }
 
 func drawWorkload(t *rapid.T) *workload {
-	if rapid.IntRange(0, 4).Draw(t, "class") == 0 {
+	if rapid.IntRange(0, 4).Draw(t, "class") == 0 || os.Getenv("VERIF_C17_CLASS") == "stalled" { // env: A/B measurements only
 		return drawStalled(t)
 	}
 	w := &workload{}
@@ -1458,6 +1465,7 @@ func record(t fataler, kind string, w *workload, v *verdict) (knownHit bool) {
 		evid.R.Label("stalled-peer:healthy-calls-not-judged(process-stall)", int64(v.judgeSkipped))
 		evid.R.Label("stalled-peer:healthy-calls-overlapping-stalled-send", int64(v.overlapHole))
 		evid.R.Label("stalled-peer:healthy-calls-bad", int64(v.healthyBad))
+		evid.R.Label("stalled-peer:healthy-calls-bad(identical-payload-calls)", int64(v.healthyBadTwin))
 	} else if w.Storm {
 		labels = append(labels, "class:late-response-storm")
 		for _, k := range []int{8, 16, 32, 64} {
